@@ -59,6 +59,14 @@ func (_ dimensionSetter) UpdateProperties(po tabular.PropertyOwner) error {
 		}
 	}
 
+	// A single-line item which declares its own width (eg, text carrying
+	// terminal escape sequences) is laid out as exactly that wide.
+	if len(lines) == 1 {
+		if _, ok := cell.Item().(tabular.TerminalCellWidther); ok {
+			linesWidths[0].W = dims.cellWidth
+		}
+	}
+
 	po.SetProperty(propDimensions, dims)
 	po.SetProperty(propLinesWidths, linesWidths)
 	return nil
